@@ -29,7 +29,7 @@ def main(argv=None):
     c.add_argument('--tier', default=os.environ.get('VERIF_TIER', 'quick'), choices=['quick', 'thorough'])
     c.add_argument('--repo', default=None)
     c.add_argument('--no-write', action='store_true')
-    c.add_argument('--sub', action='append', default=[], help='ad-hoc in-memory edit rel::old::new (exactly one match)')
+    c.add_argument('--sub', action='append', default=[], help='ad-hoc in-memory edit rel@@old@@new (exactly one match)')
     e = sub.add_parser('explain')
     e.add_argument('path')
     a = ap.parse_args(argv)
@@ -46,7 +46,7 @@ def main(argv=None):
         try:
             src = SourceSet(a.repo)
             for spec in a.sub:
-                rel, old, new = spec.split('::')
+                rel, old, new = spec.split('@@')
                 old = old.encode().decode('unicode_escape'); new = new.encode().decode('unicode_escape')
                 txt = src.text(rel)
                 if txt.count(old) != 1:
